@@ -70,10 +70,12 @@ Grids == {s \in {SortedSeq(A) : A \in Angles} : Len(s) >= 3 /\ GapsOK(s)}
 Init == dir = <<0, 120, 240>> /\ D = <<0, 0, 0>> /\ nan = <<FALSE, FALSE, FALSE>> /\ stage = "idle"
 Next == \/ stage = "idle" /\ dir' \in Grids /\ D' = D /\ nan' = nan /\ stage' = "grid"
         \/ /\ stage = "grid"
-           /\ \E k \in 0..(N - 1), off \in {0, 360, 0 - 360} :
+           /\ \E k \in 0..(N - 1), off \in {0, 360, 0 - 360, 1} :
                 LET d2 == Rot(dir, k)
-                    \* an arbitrary start: the grid may be given in any window of 360 degrees
-                    d3 == [j \in 1..N |-> IF d2[j] < d2[1] THEN d2[j] + 360 + off ELSE d2[j] + off]
+                    \* an arbitrary start: the grid may be given in any window of 360 degrees (monotone), or
+                    \* (off = 1) with every angle reduced into [0, 360): the branch cut then falls inside the array
+                    d3 == IF off = 1 THEN d2
+                          ELSE [j \in 1..N |-> IF d2[j] < d2[1] THEN d2[j] + 360 + off ELSE d2[j] + off]
                 IN /\ dir' = d3
                    /\ D' \in [1..N -> DVals]
                    /\ nan' \in {m \in [1..N -> BOOLEAN] : \A j \in 1..N : (IsOct(d3[j]) => ~m[j])}
